@@ -117,17 +117,37 @@ Definition ve_data (v : hvehicle) : vehicle_data :=
   (ve_seq (hv v), (ve_stop (hv v), (ve_status (hv v), (omap fst (ve_ts (hv v)), (ve_congestion (hv v),
   (ve_occ (hv v), ve_occ_pct (hv v)))))))))).
 
+Definition h_vid (oi : option vehicle_id) (h : hasher) : hasher :=
+  match oi with None => hbool true h | Some i => hstring (vi_plate i) (hstring (vi_label i) (hstring (vi_id i) (hbool false h))) end.
+Definition h_vtrip (ot : option rt_trip) (h : hasher) : hasher :=
+  match ot with None => hbool true h | Some t => htrip t (hbool false h) end.
+Definition h_pos (op : option rt_position) (h : hasher) : hasher :=
+  match op with None => hbool true h
+  | Some p => number_ptr 4 (po_speed p) (number_ptr 8 (po_odo p) (number_ptr 4 (po_bearing p)
+                         (number_ptr 4 (po_lon p) (number_ptr 4 (po_lat p) (hbool false h))))) end.
+Lemma total_h_vid oi h : total (h_vid oi h) = total h ++ enc (c_option c_vid) (omap (fun i => (vi_id i, (vi_label i, vi_plate i))) oi).
+Proof. destruct oi as [i|]; cbn [h_vid omap option_map]; [|now rewrite total_hbool].
+  rewrite !total_hstring, total_hbool. unfold c_vid. raw_codecs. cbn [enc_option enc fst snd]. rewrite <- !app_assoc. reflexivity. Qed.
+Lemma total_h_vtrip ot h : total (h_vtrip ot h) = total h ++ enc (c_option c_trip) (omap tr_data ot).
+Proof. destruct ot as [t|]; cbn [h_vtrip omap option_map]; [|now rewrite total_hbool].
+  rewrite total_htrip, total_hbool. cbn [enc c_option enc_option]. rewrite <- !app_assoc. reflexivity. Qed.
+Lemma total_h_pos op h : total (h_pos op h) = total h ++
+  enc (c_option c_pos) (omap (fun p => (po_lat p, (po_lon p, (po_bearing p, (po_odo p, po_speed p))))) op).
+Proof. destruct op as [p|]; cbn [h_pos omap option_map]; [|now rewrite total_hbool].
+  rewrite !total_number_ptr, total_hbool. unfold c_pos. raw_codecs. cbn [enc_option enc fst snd]. raw_codecs.
+  rewrite <- !app_assoc. reflexivity. Qed.
+Lemma hvehicle_body_eq v h : hvehicle_body v h =
+  number_ptr 4 (ve_occ_pct (hv v)) (number_ptr 4 (ve_occ (hv v)) (number 4 (ve_congestion (hv v)) (time_ptr (ve_ts (hv v))
+   (number_ptr 4 (ve_status (hv v)) (string_ptr (ve_stop (hv v)) (number_ptr 4 (ve_seq (hv v))
+   (h_pos (ve_pos (hv v)) (h_vtrip (hv_trip v) (h_vid (ve_id (hv v)) h))))))))).
+Proof. reflexivity. Qed.
 Lemma total_hvehicle v h : total (hvehicle_body v h) = total h ++ enc c_vehicle (ve_data v).
 Proof.
-  unfold hvehicle_body, time_ptr. cbv zeta.
-  destruct v as [[oid otk opos sq st stat ts cong occ pct inm] otrip];
-    cbn [hv hv_trip ve_id ve_pos ve_seq ve_stop ve_status ve_ts ve_congestion ve_occ ve_occ_pct].
-  destruct opos as [p|]; destruct otrip as [t|]; destruct oid as [i|];
-    repeat (rewrite ?total_number_ptr, ?total_number, ?total_string_ptr, ?total_htrip, ?total_hstring, ?total_hbool);
-    unfold c_vehicle, ve_data, c_vid, c_pos; raw_codecs;
-    cbn [hv hv_trip ve_id ve_pos ve_seq ve_stop ve_status ve_ts ve_congestion ve_occ ve_occ_pct
-         omap option_map enc_option vi_id vi_label vi_plate po_lat po_lon po_bearing po_odo po_speed enc fst snd];
-    rewrite ?enc_option_u, ?enc_option_s; rewrite <- ?app_assoc; reflexivity.
+  rewrite hvehicle_body_eq. unfold time_ptr.
+  rewrite !total_number_ptr, total_number, !total_number_ptr, total_string_ptr, total_number_ptr, total_h_pos, total_h_vtrip, total_h_vid.
+  unfold c_vehicle, ve_data. unfold c_pair at 1 2 3 4 5 6 7 8 9. cbn [enc fst snd].
+  unfold i32, i64, u32. cbn [c_option enc]. rewrite ?enc_option_u, ?enc_option_s.
+  rewrite <- !app_assoc. reflexivity.
 Qed.
 Theorem hash_vehicle_stream v : hash_vehicle v = enc c_vehicle (ve_data v).
 Proof. unfold hash_vehicle. rewrite out_flush, total_hvehicle. reflexivity. Qed.
@@ -164,7 +184,7 @@ Lemma un_event_data e : un_event (ev_data e) = erase_event e.
 Proof. destruct e as [[[z s]|] d u]; reflexivity. Qed.
 Lemma un_stu_data u : un_stu (su_data u) = erase_stu u.
 Proof. destruct u as [sq st a d tk rl]. unfold su_data, un_stu, erase_stu; cbn.
-  destruct a as [a|]; destruct d as [d|]; cbn; now rewrite ?un_event_data. Qed.
+  destruct a as [a|]; destruct d as [d|]; cbn [omap option_map]; now rewrite ?un_event_data. Qed.
 Lemma un_trip_data t : un_trip (tr_data t) = erase_trip t.
 Proof. destruct t as [[id ro di ht ti hd [da z] rl] us v m]. unfold tr_data, un_trip, erase_trip; cbn.
   f_equal. rewrite map_map. apply map_ext. intros u; apply un_stu_data. Qed.
@@ -199,10 +219,10 @@ Proof. destruct v as [[oid otk opos sq st stat ts cong occ pct inm] otrip]. unfo
   - destruct oid as [[a b c]|]; reflexivity.
   - destruct opos as [[a b c d e]|]; reflexivity.
   - destruct ts as [[z s]|]; reflexivity.
-  - destruct otrip as [t|]; cbn; [now rewrite un_trip_data|reflexivity]. Qed.
+  - destruct otrip as [t|]; cbn [omap option_map]; [now rewrite un_trip_data|reflexivity]. Qed.
 Lemma ve_data_erase v : ve_data (erase_vehicle v) = ve_data v.
-Proof. destruct v as [[oid otk opos sq st stat ts cong occ pct inm] otrip]. unfold ve_data, erase_vehicle; cbn.
-  destruct otrip as [t|]; destruct ts as [[z s]|]; cbn; now rewrite ?tr_data_erase. Qed.
+Proof. destruct v as [[oid otk opos sq st stat ts cong occ pct inm] otrip]. unfold ve_data, erase_vehicle; cbn [hv hv_trip ve_id ve_pos ve_seq ve_stop ve_status ve_ts ve_congestion ve_occ ve_occ_pct].
+  destruct otrip as [t|]; destruct ts as [[z s]|]; cbn [omap option_map erase_instant fst]; now rewrite ?tr_data_erase. Qed.
 Lemma ve_data_eq_iff a b : ve_data a = ve_data b <-> erase_vehicle a = erase_vehicle b.
 Proof. split; intros H.
   - rewrite <- !un_vehicle_data. now rewrite H.
@@ -240,8 +260,8 @@ Definition ex_trip : rt_trip :=
                   k_has_date := true; k_date := (1699938000, "America/New_York"); k_rel := 0 |};
      tr_stus := [ex_stu; ex_stu]; tr_vehicle := Some (Some {| vi_id := "0L 1118"; vi_label := ""; vi_plate := "" |}); tr_in_msg := true |}.
 Example ex_trip_wf : wf_trip ex_trip.
-Proof. unfold wf_trip, ex_trip, ex_stu, ex_event; cbn -[Z.pow Z.div]. unfold wf_str, signed_range; cbn -[Z.pow Z.div].
-  repeat split; try lia; repeat constructor; cbn -[Z.pow Z.div]; unfold wf_str, signed_range; cbn -[Z.pow Z.div]; try lia. Qed.
+Proof. unfold wf_trip. vm_compute.
+  repeat (split || constructor); try reflexivity; try (intro; discriminate); exact I. Qed.
 Example nil_vs_zero : enc (c_option i32) None <> enc (c_option i32) (Some 0).
 Proof. vm_compute. congruence. Qed.
 Example boundary : enc c_str "ab" ++ enc c_str "c" <> enc c_str "a" ++ enc c_str "bc".
